@@ -168,6 +168,15 @@ def shard(seed, idx, n, tier):
         from harness.props import c08
         c08.one_case(core.rng_for(seed, "c08-shared", idx), res, force=["replay_plus_two_subkey_links", "double_replay", "failing_sublayout_plus_two_subkey_links"][idx % 3])
         res.count("family_replay_and_subkeys")
+    if W.gpg_available():
+        # families of C02 and C06 that are about who stands behind the artifacts of a step that asks for more than one
+        # functionary: two authorised subkeys of ONE gpg key (one functionary); two functionaries each delegating to the
+        # same layout content, the second delegation's links differing or missing
+        from harness.props import c02, c06
+        grid = c02.gpg_pair_grid()
+        c02.one_case(core.rng_for(seed, "c05-pair", idx), res, True, combo=grid[idx % len(grid)])
+        c06.one_case(core.rng_for(seed, "c05-shared", idx), res, defect="shared")
+        res.count("family_subkey_pairs_and_shared_delegations")
     return res
 
 
